@@ -82,6 +82,42 @@ def plain_copy(d):
     return {k: (list(x) if isinstance(x, list) else x) for k, x in d.items()}
 
 
+# ---- defensive observation of what the code under test returns: anything that is not what the property promises becomes the
+# ---- negative observation of the clause (a parse that gave no dictionary, values that are not equal), never an error here
+MISSING = type("Missing", (), {"__repr__": lambda self: "<no such key>"})()
+
+
+def as_dictionary(x):
+    """(plain copy, "") if a parse returned a dictionary, (None, what it returned) otherwise"""
+    try:
+        if isinstance(x, dict) or (hasattr(x, "items") and hasattr(x, "keys")):
+            return plain_copy(x), ""
+    except Exception as e:  # noqa
+        return None, f"returned a {type(x).__name__} whose items cannot be read ({type(e).__name__})"
+    return None, f"returned {type(x).__name__} instead of a dictionary"
+
+
+def same(a, b):
+    """a == b; values that `==` does not compare into one truth value (arrays inside the dictionaries) are compared element by
+    element; values that cannot be compared at all are not equal"""
+    try:
+        return bool(a == b)
+    except Exception:
+        pass
+    try:
+        if isinstance(a, dict) and isinstance(b, dict):
+            return a.keys() == b.keys() and all(same(a[k], b[k]) for k in a)
+        x, y = np.asarray(a), np.asarray(b)
+        return x.shape == y.shape and bool(np.all(x == y))
+    except Exception:
+        return False
+
+
+def keytext(k):
+    """a key of a parsed dictionary as text (keys are strings; anything else is shown for what it is)"""
+    return k if isinstance(k, str) else f"<{type(k).__name__}>{k!r}"
+
+
 # ------------------------------------------------------------------------------------------
 # grammar: running the real code
 # ------------------------------------------------------------------------------------------
@@ -114,6 +150,8 @@ def concretise(sym, rnd):
 
 
 def kind_of(val):
+    if val is MISSING:
+        return "none"
     if isinstance(val, str):
         return "str"
     if isinstance(val, list):
@@ -147,19 +185,45 @@ def round_trip(folder, text, form="lf", dest="fresh", aspath=True, raw=None):
     a1, a2 = (f1, f2) if aspath else (str(f1), str(f2))
     res = {"raised1": False, "exc1": "", "raised2": False, "exc2": "", "d1": None, "d2": None, "text2": "",
            "how": f"file form {form if raw is None else 'as shipped'}, destination {dest}, names as {'Path' if aspath else 'str'}"}
+    res["stage2"] = "the second parse"
     try:
         d1 = spikeglx.read_meta_data(a1)
-        res["d1"] = plain_copy(d1)
     except Exception as e:
         res["raised1"], res["exc1"] = True, type(e).__name__
         return res
-    spikeglx.write_meta_data(d1, a2)
-    res["text2"] = f2.read_text()
+    res["d1"], why = as_dictionary(d1)
+    if res["d1"] is None:
+        # no dictionary came back: for the property the same as a parse that did not succeed
+        res["raised1"], res["exc1"] = True, why
+        return res
     try:
-        res["d2"] = spikeglx.read_meta_data(a2)
+        spikeglx.write_meta_data(d1, a2)
+    except Exception as e:
+        # the writer did not complete: there is no second dictionary (judged like a second parse that did not succeed)
+        res["raised2"], res["exc2"], res["stage2"] = True, type(e).__name__, "write_meta_data"
+    res["text2"] = read_written(f2)
+    if res["raised2"]:
+        return res
+    try:
+        d2 = spikeglx.read_meta_data(a2)
     except Exception as e:
         res["raised2"], res["exc2"] = True, type(e).__name__
+        return res
+    res["d2"], why = as_dictionary(d2)
+    if res["d2"] is None:
+        res["raised2"], res["exc2"] = True, why
     return res
+
+
+def read_written(f):
+    """the text write_meta_data left (for the descriptions and the implementation-layer comparison); no file / no text: what
+    can be made of it - the verdict comes from the second parse"""
+    try:
+        return Path(f).read_text()
+    except OSError:
+        return ""
+    except UnicodeError:
+        return Path(f).read_bytes().decode("utf-8", "replace")
 
 
 def _big(val):
@@ -171,7 +235,7 @@ def grammar_trace(text, res):
     """trace record of one file for MetaGrammarTrace"""
     lines = text.splitlines()
     t = {"lines": [], "obs": [], "raised1": res["raised1"], "raised2": res["raised2"], "exc": res["exc1"] or res["exc2"],
-         "equal": bool(res["d1"] is not None and res["d2"] is not None and res["d1"] == res["d2"]), "keys1": []}
+         "equal": bool(res["d1"] is not None and res["d2"] is not None and same(res["d1"], res["d2"])), "keys1": []}
     written = {}
     for ln in res["text2"].splitlines():
         k, val = split_line(ln)
@@ -196,10 +260,10 @@ def grammar_trace(text, res):
             o["w"] = list(written.get(key, "<missing>"))
             if d2 is not None and key in d2:
                 o["k2"] = kind_of(d2[key])
-                o["eqv"] = bool(d1[key] == d2[key])
+                o["eqv"] = same(d1[key], d2[key])
         t["obs"].append(o)
     if not res["raised1"]:
-        t["keys1"] = [list(k) for k in res["d1"].keys() if k in filekeys or k not in ("neuropixelVersion", "serial")]
+        t["keys1"] = [list(keytext(k)) for k in res["d1"].keys() if k in filekeys or k not in ("neuropixelVersion", "serial")]
     return t
 
 
@@ -280,7 +344,7 @@ def replay_exported_grammar(ctx, cases, rnd):
                         if c["dom"]:
                             nviol += 1
                             ctx.violation("grammar:roundtrip:raised", f"value {val!r} is in the property's domain and "
-                                          f"{'the first' if one['raised1'] else 'the second'} parse raised "
+                                          f"{'the first parse' if one['raised1'] else one['stage2']} did not succeed: "
                                           f"{one['exc1'] or one['exc2']} [{one['how']}]", {"kind": "grammar", "text": f"k={val}\n", **scn})
                         else:
                             ctx.spec_drift(f"value {val!r}: a parse raised, the implementation layer does not")
@@ -292,20 +356,21 @@ def replay_exported_grammar(ctx, cases, rnd):
             for i, (c, val) in enumerate(zip(part, vals)):
                 key = f"k{i:04d}"
                 ctx.count(1, key=("g", tuple(c["v"])) if c["k"] != "str" else None)
-                eqv = key in d2 and d1[key] == d2[key]
+                v1 = d1.get(key, MISSING)
+                eqv = key in d1 and key in d2 and same(v1, d2[key])
                 if c["dom"] and not eqv:
-                    cls = "scalar-below-1e-4" if tiny_scalar(val) else kind_of(d1[key])
+                    cls = "scalar-below-1e-4" if tiny_scalar(val) else kind_of(v1)
                     ctx.violation(f"grammar:roundtrip:{cls}",
-                                  f"value {val!r} (in the property's domain) parsed as {d1[key]!r}, written as "
+                                  f"value {val!r} (in the property's domain) parsed as {v1!r}, written as "
                                   f"{written.get(key)!r}, parsed again as {d2.get(key)!r}: RoundTrip false [{res['how']}]",
                                   {"kind": "grammar", "text": f"k={val}\n", **scn})
                     nviol += 1
                     continue
-                got = (kind_of(d1[key]), absstr(written.get(key, "<missing>")), kind_of(d2.get(key, 0)), bool(eqv))
+                got = (kind_of(v1), absstr(written.get(key, "<missing>")), kind_of(d2.get(key, 0)), bool(eqv))
                 exp = (c["k"], list(c["w"]), c["k2"], c["same"])
                 if got != exp:
                     ctx.spec_drift(f"value {val!r}: real (kind, written, kind2, equal) = {got}, implementation layer {exp}")
-            if nviol == before and part and part[0]["dom"] and d1 != d2:
+            if nviol == before and part and part[0]["dom"] and not same(d1, d2):
                 must.append(len(texts) - 1)             # every value came back, the dictionaries differ all the same
         for c in (unsafe if rep == 0 else []):
             val = concretise(c["v"], rnd)
@@ -516,7 +581,9 @@ def project(sr, cfg, fstext, backwards=False):
            "maxint": maxint, "s2v": s2, "rv": rv, "ns": ns,
            "fsok": bool(fstext is not None and float(sr.fs) == float(fstext))}
     if obs["nsync"] != len(sync):
-        obs["sync"] = [-1] * obs["nsync"]      # Reader.nsync and the index list disagree
+        # Reader.nsync and the index list disagree: a list that no configuration expects (never empty, never huge, whatever
+        # number - negative, 10^10 - the property returned)
+        obs["sync"] = [-1] * max(1, min(abs(obs["nsync"]), 4096))
     return obs
 
 
@@ -680,6 +747,27 @@ def d_nstates(t):
     return 3
 
 
+I32 = 2 ** 31 - 1
+
+
+def tlc_safe(t):
+    """the record of one observation as TLC gets it.  TLC's integers have 32 bits and JsonDeserialize wraps larger numbers around
+    without a word (a maximum integer of 512 + 2^32 would read as 512): counts and indices outside the range are replaced by a
+    number no configuration expects; the two sample counts (announced and observed: files of 3e9 samples are inside the property)
+    by a pair within the range that is equal exactly when they are equal"""
+    fit = lambda n: -I32 <= n <= I32    # noqa: E731
+    c, o = dict(t["cfg"]), dict(t["obs"])
+    nsdoc, ns = c["nsdoc"], o["ns"]
+    c["nsdoc"] = nsdoc if fit(nsdoc) else I32
+    o["ns"] = c["nsdoc"] if ns == nsdoc else (ns if fit(ns) and ns != c["nsdoc"] else -3)
+    for k in ("nc", "nsync", "maxint"):
+        o[k] = o[k] if fit(o[k]) else -7
+    for k in ("sync", "analog", "rv"):
+        o[k] = [x if fit(x) else -7 for x in o[k]]
+    o["s2v"] = [x if x == ["unit"] else [y if fit(y) else -7 for y in x] for x in o["s2v"]]
+    return {"cfg": c, "exc": t["exc"], "obs": o}
+
+
 def derive_key(t, clause):
     c = t["cfg"]
     ver = t["obs"]["version"] or ("nidq" if c["typeThis"] == "nidq" else f"type{c['prbType']}")
@@ -694,7 +782,7 @@ def describe_cfg(c):
 
 
 def check_derive_traces(ctx, texts, trs, label):
-    clean = [{k: t[k] for k in ("cfg", "exc", "obs")} for t in trs]
+    clean = [tlc_safe(t) for t in trs]
     verdicts = tracecheck.validate(ctx, DMOD, DCFG, clean, label=label, jvms=4, workers=2, nstates=d_nstates)
     for vd in verdicts:
         t = trs[vd["index"]]
@@ -951,7 +1039,7 @@ def selftest_derive(ctx, trs, bad):
             o["rv"][x] += 1
         mut.append(t)
     keep = ctx.cov["traces_validated_against_impl"]
-    v = tracecheck.validate(ctx, DMOD, DCFG, mut, label="selftest_d", jvms=1, nstates=d_nstates)
+    v = tracecheck.validate(ctx, DMOD, DCFG, [tlc_safe(t) for t in mut], label="selftest_d", jvms=1, nstates=d_nstates)
     ctx.cov["traces_validated_against_impl"] = keep
     flagged = {x["index"] for x in v if x["prop"]}
     if len(flagged) != len(mut):
